@@ -132,7 +132,11 @@ func verifyTuple(rng *gen.Rng, i int) sigTuple {
 		R := oracle.MulG(k)
 		rr := oracle.Mod(R.X, bigN)
 		var sv *big.Int
-		switch rng.Intn(4) {
+		switch rng.Intn(6) {
+		case 4:
+			sv = new(big.Int).Set(oracle.HalfN) // the largest admissible low s
+		case 5:
+			sv = new(big.Int).Add(oracle.HalfN, big.NewInt(1)) // the smallest high s
 		case 0:
 			sv = big.NewInt(int64(1 + rng.Intn(3)))
 		case 1:
@@ -152,7 +156,14 @@ func verifyTuple(rng *gen.Rng, i int) sigTuple {
 		if R.X.Cmp(bigN) >= 0 {
 			v |= 2
 		}
-		return sigTuple{Q: oracle.MulG(d), D: d, Digest: dig, R: rr, S: sv, V: v, Class: "tiny-s," + dc}
+		cl := "tiny-s,"
+		if sv.Cmp(oracle.HalfN) >= 0 {
+			cl = "tiny-s,s=halfN(+1),"
+			if sv.Cmp(oracle.HalfN) > 0 {
+				v ^= 0 // the id belongs to this (high) s: R = kG was used as is
+			}
+		}
+		return sigTuple{Q: oracle.MulG(d), D: d, Digest: dig, R: rr, S: sv, V: v, Class: cl + dc}
 	}
 }
 
